@@ -1,9 +1,9 @@
 (* Model/DriverAll.v -- the complete operation table of the line protocol:
    the base table of Model/Driver.v plus the per-property extension tables. *)
 From Coq Require Import List String.
-From Iso Require Import Model.Driver Model.DriverText Model.DriverCache Model.DriverC16 Model.DriverDurText Model.DriverCli.
+From Iso Require Import Model.Driver Model.DriverText Model.DriverCache Model.DriverC16 Model.DriverDurText Model.DriverCli Model.DriverRecText.
 Import ListNotations.
 
-Definition all_ops : list (string * rd string) := op_table ++ ops_text ++ ops_cache ++ ops_c16 ++ ops_durtext ++ ops_cli.
+Definition all_ops : list (string * rd string) := op_table ++ ops_text ++ ops_cache ++ ops_c16 ++ ops_durtext ++ ops_cli ++ ops_rectext.
 
 Definition run_line (line : string) : string := run_ops all_ops line.
